@@ -16,7 +16,7 @@ def cxxflags(repo):
     return ['-std=c++11', '-O1', '-w', '-Dprivate=public', '-Dprotected=public', '-I', os.path.join(repo, 'src'),
             '-I', os.path.join(VERIF, 'native', 'include'), '-I', os.path.join(VERIF, 'contracts'), '-I', os.path.join(VERIF, 'stubs')]
 
-def build_real(name, mod, gendir, outdir, repo):
+def build_real(name, mod, gendir, outdir, repo, defs=None):
     """Compile shims + the draco .cc files the unit needs, from the working tree. Returns (ok, objs or message)."""
     os.makedirs(outdir, exist_ok=True)
     objs = []
@@ -28,7 +28,7 @@ def build_real(name, mod, gendir, outdir, repo):
         srcs += [os.path.join(repo, s) for s in getattr(m, 'NATIVE_SOURCES', [])]
     for i, s in enumerate(srcs):
         o = os.path.join(outdir, 'real_%d.o' % i)
-        rc, out = sh(['g++'] + cxxflags(repo) + list(getattr(mod, 'NATIVE_DEFS', [])) + ['-I', gendir, '-c', s, '-o', o])
+        rc, out = sh(['g++'] + cxxflags(repo) + list(defs if defs is not None else getattr(mod, 'NATIVE_DEFS', [])) + ['-I', gendir, '-c', s, '-o', o])
         if rc != 0: return False, 'g++ failed on %s: %s' % (s, out[-1500:])
         objs.append(o)
     return True, objs
@@ -85,11 +85,12 @@ def replay(job, obligation, gendir, build, repo):
     unit = job['id'].split('.')[0]
     import importlib
     mod = importlib.import_module('units.' + unit)
-    out = os.path.join(build, 'native_' + unit)
-    ok, objs = build_real(unit, mod, gendir, out, repo)
+    # the real code is compiled with the SAME -D set as the harness (e.g. -DRANS_P=20 selects RAnsEncoder<20> in the shims)
+    defs = [d for d in job.get('defines', getattr(mod, 'DEFS', []))] + [d for d in getattr(mod, 'NATIVE_DEFS', []) if not any(d.split('=')[0] == x.split('=')[0] for x in job.get('defines', []))]
+    out = os.path.join(build, 'native_' + unit + '_' + re.sub(r'[^A-Za-z0-9]', '', ''.join(sorted(defs)))[-60:])
+    ok, objs = build_real(unit, mod, gendir, out, repo, defs)
     if not ok: return {'status': 'error', 'detail': objs}
     ho = os.path.join(out, 'harness_%s.o' % job['entry'])
-    defs = [d for d in job.get('defines', getattr(mod, 'DEFS', []))] + [d for d in getattr(mod, 'NATIVE_DEFS', []) if not any(d.split('=')[0] == x.split('=')[0] for x in job.get('defines', []))]
     rc, o = sh(['gcc', '-std=gnu11', '-O1', '-w', '-ffunction-sections', '-DHARNESS=' + job['entry'], '-I', gendir, '-I', os.path.join(VERIF, 'contracts'), '-I', os.path.join(VERIF, 'stubs')] + defs +
                ['-c', os.path.join(VERIF, job['src']), '-o', ho])
     if rc != 0: return {'status': 'error', 'detail': 'gcc harness: ' + o[-1500:]}
